@@ -344,8 +344,11 @@ def exec_c04(cfg, devs):
                         return [(simcf.SimCF.hdr(2, 3), bytes(data[:3]) + bytes([2]))]
                 return None
             dev.hooks.append(enoent_hook)
-        for ti, reqs in enumerate(threads):
-            s.spawn(None, (lambda ti=ti, reqs=reqs: user(ti, reqs)), name='user%d' % ti)
+        def spawn_users():
+            for ti, reqs in enumerate(threads):
+                s.spawn(None, (lambda ti=ti, reqs=reqs: user(ti, reqs)), name='user%d' % ti)
+        if not cfg.get('park_env_first'):
+            spawn_users()
         if cfg.get('unsolicited'):
             def unsol():
                 s.lazy_point('env.value_updated', timeout=cfg['unsolicited'])
@@ -356,6 +359,9 @@ def exec_c04(cfg, devs):
                 if ex.env.links and not ex.env.links[-1].closed:
                     ex.env.links[-1].inject(*dev.value_updated_packet(upi))
             s.spawn(None, unsol, name='env-unsolicited')
+        if cfg.get('park_env_first'):
+            s.sleep(1e-6, 'let.env.park')      # the notification can arrive from the first line of the first request on
+            spawn_users()
         s.sleep(cfg.get('settle', 2.5), 'settle')
         ex.freeze()
         info['values'] = {g: dict(v) for g, v in cf.param.values.items()}
@@ -616,6 +622,10 @@ def configs(quick):
     return out
 
 
+def _env_filter(devs, i, alt, label):
+    return not devs and any(a == alt for a, nm in getattr(label, 'lazy', ()))
+
+
 def _focus_filter(devs, i, alt, label):
     if not devs:
         return label.startswith('reply:p2') and alt == 1
@@ -656,6 +666,16 @@ def run(ck):
         focus.append({'name': 'getstate2:lines:focus3', 'threads': 'getstate2', 'lines': True})
     r3 = explore(ck, exec_c04, focus, 3, child_filter=_focus_filter, max_execs=2500000)
     ck.note('focused_three_deviations', r3)
+    # the unsolicited notification arrives at any line of the user calls / the updater / the reply handlers and is handled
+    # completely (by the dispatcher) before the interrupted thread goes on: scheduling policy others_first, one deviation
+    of = [{'name': '%s:lines:notified_at_any_line' % th, 'threads': th, 'lines': True, 'unsolicited': 1.0, 'unsol_param': up,
+           'policy': 'others_first', 'park_env_first': True}
+          for th, up in (('set+read', None), ('set+set_diff', 0), ('getstate2', 2), ('set+set_same', None))]
+    for c in of:
+        if c['unsol_param'] is None:
+            del c['unsol_param']
+    r4 = explore(ck, exec_c04, of, 1, child_filter=_env_filter)
+    ck.note('notification_handled_completely_at_any_line', r4)
     ck.exhaustive = True
 
 
